@@ -217,6 +217,23 @@ def run(ctx):
         if ks:
             gates[n] = min(ks)
     ctx.floor('JPEG functions that recognise C2PA APP11 segments', len(gates), 4, rule='C07-D5')
+    # the same recognisers slice the segment at the same offsets: instance number (En) and JUMBF type
+    slices = {}
+    for n in gates:
+        fn = prog.fn(n)
+        sl = []
+        for bi, t in fn.calls():
+            if t['fd'].endswith('vec_compare'):
+                tt = T.call_term(fn, bi)
+                kind = 'type' if 'C2PA_MARKER' in tt else 'instance'
+                for a, b2 in re.findall(r'Range\((\d+),(\d+)\)', tt):
+                    sl.append((kind, int(a), int(b2)))
+        slices[n] = sorted(set(sl))
+    allv = list(slices.values())
+    for n, sl in sorted(slices.items()):
+        others = [v for m, v in slices.items() if m != n]
+        maj = max(others, key=others.count) if others else sl
+        ctx.ob('C07-D5', n, 'byte ranges compared (instance number, JUMBF type)', 'same in every recogniser', sl == maj, detail='this=%s others=%s' % (sl, maj))
     vals = sorted(set(gates.values()))
     for n, k in sorted(gates.items()):
         others = [v for m, v in gates.items() if m != n]
